@@ -55,7 +55,11 @@ def validate_output_call(ex, e, st):
     me = as_kind(st.env['self'], Ref(), st)
     outs = []
     for s1, vals in ex.evs(e.args, st):
-        outs.extend(calls.apply_bound(ex, s1, k, {'self': ZV('ref', me, 'Circuit'), 'blk': ZV('val', to_val(vals[1], s1))}, 'call:Circuit._validate_blk'))
+        for s2, r in calls.apply_bound(ex, s1, k, {'self': ZV('ref', me, 'Circuit'), 'blk': ZV('val', to_val(vals[1], s1))}, 'call:Circuit._validate_blk'):
+            if not isinstance(r, Raise):
+                rr = Val.ref(to_val(r, s2))
+                s2.assume(Not(And(calls.inst_of(rr, CONST()), calls.inst_of(rr, BL()))))      # instance of the precondition const_objects_are_not_blocks
+            outs.append((s2, r))
     return outs
 
 
@@ -72,6 +76,8 @@ def blocks_of_type(ex, e, st):
     if not (isinstance(bt, PConst) and isinstance(bt.obj, type)): raise Unsupported('getblocks with a symbolic type')
     b = Int('b!gb')
     S = View(st)
+    if bt.obj.__name__ == 'Not':
+        st = st.copy(); st.ghost['blocks_at_second_pass'] = S.f('_blocks', me)
     return [(st, PSet(z3.Lambda([b], And(member(S, me, b), calls.inst_of(b, bt.obj))), 'ref'))]
 
 
@@ -103,8 +109,21 @@ def _finalize(c):
     c.requires('names_map_to_the_blocks_of_that_name', ForAll([n], Implies(OI.is_Some(blocks0[n]), And(calls.inst_of(OI.v(blocks0[n]), BL()), c.pre('name', OI.v(blocks0[n])) == n))))
     c.requires('const_objects_are_not_blocks', disjoint_classes())
     for cls in ('KeyError', 'ValueError'): c.raises(cls, unchanged=False, label=f'unresolvable_reference:{cls}')
+    ic0, oc0 = c.pre_whole('iconnections'), c.pre_whole('oconnections')
+    c.requires('no_connection_has_been_made_yet', ForAll([a, b], And(Not(ic0[b][a]), Not(oc0[a][b]))))        # finalize() runs _finalize once (C15: Circuit.finalize)
     if not c.verifying: return
     for lab, f in G(c.S, c.T, me)[:5]: c.ensures(lab, f)
+    ic, oc = c.post_whole('iconnections'), c.post_whole('oconnections')
+    CB, NOT = calls.C_class('CBlock'), calls.C_class('Not')
+    c.ensures('B_is_an_output_connection_of_A_exactly_if_A_is_an_input_connection_of_B', ForAll([a, b], oc[a][b] == ic[b][a]))
+    c.ensures('every_combinational_block_given_by_the_user_has_resolved_and_connected_inputs',
+              ForAll([b], Implies(And(member(c.S, me, b), calls.inst_of(b, CB)), connected_inputs(c.T, me, b))))
+    at2 = c.T.g('blocks_at_second_pass')
+    c.ensures('qf:a_second_pass_over_the_inverters_takes_place', BoolVal(at2 is not None))       # the first pass may create inverter blocks
+    if at2 is not None:
+        reg2 = lambda r: And(calls.inst_of(r, BL()), OI.is_Some(at2[c.pre('name', r)]), OI.v(at2[c.pre('name', r)]) == r)
+        c.ensures('every_inverter_existing_when_the_second_pass_starts_has_resolved_and_connected_inputs',
+                  ForAll([b], Implies(And(reg2(b), calls.inst_of(b, NOT)), connected_inputs(c.T, me, b))))
 
 
 def all_resolved(st, me, arr, n):
@@ -112,24 +131,136 @@ def all_resolved(st, me, arr, n):
     return ForAll([i], Implies(And(0 <= i, i < n), resolved(st, me, asel(arr, i))))
 
 
+def input_ok(st, me, v, collected=None):
+    """a resolved connect() item: a resolved object, or a group (tuple) of resolved objects; with `collected` = (arr, n): each
+    of them also occurs in the list of collected inputs"""
+    j, i = Int('j!io'), Int('i!io')
+    def one(x):
+        if collected is None: return resolved(st, me, x)
+        return And(resolved(st, me, x), collected(x))
+    k = Val.tk(v)
+    return Or(And(Not(Val.is_T(v)), one(v)), And(Val.is_T(v), ForAll([j], Implies(And(0 <= j, j < tup_len(k)), one(tup_item(k, j))))))
+
+
+def connected_inputs(st, me, b):
+    """(processed block) every input item is resolved, and every block among the items is an input connection of b"""
+    kk, j = Const('k!ci', StringSort()), Int('j!ci')
+    ins = st.f('inputs', b); ic = st.whole('iconnections')
+    def linked(x): return Implies(Not(calls.inst_of(Val.ref(x), CONST())), ic[b][Val.ref(x)])
+    v = OV.v(ins[kk]); k = Val.tk(v)
+    return ForAll([kk], Implies(OV.is_Some(ins[kk]), And(input_ok(st, me, v),
+                   If(Val.is_T(v), ForAll([j], Implies(And(0 <= j, j < tup_len(k)), linked(tup_item(k, j)))), linked(v)))))
+
+
+def frame(entry, st, me, blk, inputs_of_blk_too=False):
+    """what the inner loops keep: input connections only grow; the inputs of the blocks registered before stay as they are
+    (a shortcut creates a new block with inputs of its own); optionally also the inputs of the block being processed"""
+    a, b = Int('a!fr'), Int('b!fr')
+    ic0, ic = entry.whole('iconnections'), st.whole('iconnections')
+    in0, in1 = entry.whole('inputs'), st.whole('inputs')
+    keep = member(entry, me, b) if inputs_of_blk_too else And(member(entry, me, b), b != blk)
+    n = Const('n!fr', StringSort())
+    bl0, bl1 = entry.f('_blocks', me), st.f('_blocks', me)
+    return [('input_connections_only_grow', ForAll([a, b], Implies(ic0[b][a], ic[b][a]))),
+            ('blocks_registered_at_loop_entry_stay_registered', ForAll([n], Implies(OI.is_Some(bl0[n]), bl1[n] == bl0[n]))),
+            ('inputs_of_the_other_registered_blocks_are_untouched', ForAll([b], Implies(keep, in1[b] == in0[b])))]
+
+
+POS = ArraySort(Val, IntSort())
+
+
+def in_list(pos, arr, n):
+    """x occurs in the list (arr, n) at the position the ghost array remembers for it"""
+    return lambda x: And(0 <= pos[x], pos[x] < n, asel(arr, pos[x]) == x)
+
+
+def ai_append(ex, e, st):
+    """all_inputs.append(x) + ghost: remember where x was put"""
+    outs = []
+    for s1, vals in ex.evs(e.args, st):
+        s1 = s1.copy(); arr, n = seq_of(s1.env['all_inputs'], s1); x = to_val(vals[0], s1)
+        s1.env['all_inputs'] = PSeq(Store(arr, n, x), n + 1, 'val', True)
+        s1.ghost['pos'] = Store(s1.ghost['pos'], x, n)
+        outs.append((s1, P_NONE))
+    return outs
+
+
+def group_append(ex, e, st):
+    """_comp_result.append(validate_output(blk, i)) + ghost: the position the item will have in all_inputs after extend()"""
+    outs = []
+    for s1, vals in ex.evs(e.args, st):
+        if isinstance(vals, Raise): outs.append((s1, vals)); continue
+        s1 = s1.copy(); res = s1.env['_comp_result']; x = to_val(vals[0], s1)
+        ai_n = seq_of(s1.env['all_inputs'], s1)[1]
+        s1.ghost['pos'] = Store(s1.ghost['pos'], x, ai_n + res.n)
+        s1.env['_comp_result'] = PSeq(Store(res.arr, res.n, x), res.n + 1, 'val', True)
+        outs.append((s1, P_NONE))
+    return outs
+
+
 def inv_blocks(lc):
     me = as_kind(lc.pre.args['self'], Ref())
-    return G(lc.pre, lc.st, me)
+    b = Int('b!ib')
+    n = Const('n!ib', StringSort())
+    bl0, bl1 = lc.entry.f('_blocks', me), lc.st.f('_blocks', me)
+    return G(lc.pre, lc.st, me) + [('blocks_registered_at_loop_entry_stay_registered', ForAll([n], Implies(OI.is_Some(bl0[n]), bl1[n] == bl0[n]))),
+                                   ('input_connections_only_grow_in_this_pass', ForAll([Int('a!ib'), b], Implies(lc.entry.whole('iconnections')[b][Int('a!ib')],
+                                                                                                          lc.st.whole('iconnections')[b][Int('a!ib')]))),
+                                   ('inputs_of_blocks_not_processed_in_this_pass_are_untouched',
+                                    ForAll([b], Implies(And(member(lc.entry, me, b), Not(lc.done[b])), lc.st.whole('inputs')[b] == lc.entry.whole('inputs')[b]))),
+                                   ('processed_blocks_have_resolved_and_connected_inputs', ForAll([b], Implies(lc.done[b], connected_inputs(lc.st, me, b))))]
 
 
 def inv_items(lc):
     me = as_kind(lc.pre.args['self'], Ref())
     s = lc.st.st
     ai_arr, ai_n = seq_of(lc.local('all_inputs'), s)
-    return G(lc.pre, lc.st, me) + [('list_length', ai_n >= 0), ('collected_inputs_are_resolved', all_resolved(lc.st, me, ai_arr, ai_n))]
+    blk = lc.st.st.env['blk'].z
+    kk = Const('k!i2', StringSort())
+    ins, ins0 = lc.st.f('inputs', blk), lc.entry.f('inputs', blk)
+    last = []
+    if z3.is_store(lc.done):
+        # quantifier-free instances, for the input name just visited, of the clause `visited_inputs_are_resolved_and_collected`
+        k0 = lc.done.arg(1); v0 = OV.v(ins[k0]); t0 = Val.tk(v0)
+        col = in_list(lc.st.st.ghost['pos'], ai_arr, ai_n)
+        last = [('qf:the_input_just_visited_is_stored_resolved_and_collected',
+                 And(OV.is_Some(ins[k0]), Implies(Not(Val.is_T(v0)), And(resolved(lc.st, me, v0), col(v0))))),
+                ('qf:the_first_member_of_the_group_just_visited_is_resolved_and_collected',
+                 Implies(And(Val.is_T(v0), tup_len(t0) > 0), And(resolved(lc.st, me, tup_item(t0, 0)), col(tup_item(t0, 0)))))]
+    return (last + G(lc.pre, lc.st, me) + frame(lc.entry, lc.st, me, blk) +
+            [('list_length', ai_n >= 0), ('collected_inputs_are_resolved', all_resolved(lc.st, me, ai_arr, ai_n)),
+             ('the_block_being_processed', And(blk == lc.entry.st.env['blk'].z, member(lc.st, me, blk))),
+             ('visited_inputs_are_resolved_and_collected', ForAll([kk], Implies(lc.done[kk], And(OV.is_Some(ins[kk]), input_ok(lc.st, me, OV.v(ins[kk]), in_list(lc.st.st.ghost['pos'], ai_arr, ai_n)))))),
+             ('other_inputs_are_as_given', ForAll([kk], Implies(Not(lc.done[kk]), ins[kk] == ins0[kk])))])
+
+
+def _group_positions(lc, ai_arr, ai_n, res):
+    """ghost positions while a group is being resolved: an item is where it was in all_inputs, or where it will be after extend()"""
+    x = Const('x!gp', Val); j = Int('j!gp')
+    pos, pos0 = lc.st.st.ghost['pos'], lc.entry.st.ghost['pos']
+    was = in_list(pos0, ai_arr, ai_n)
+    first = asel(res.arr, 0)
+    me_ = as_kind(lc.pre.args['self'], Ref())
+    inst0 = [('assume:instances_for_the_first_group_member', Implies(res.n > 0, And(resolved(lc.st, me_, first), ai_n <= pos[first], pos[first] < ai_n + res.n,
+                                                                                     asel(res.arr, pos[first] - ai_n) == first)))]
+    return inst0 + [('earlier_items_keep_a_valid_position', ForAll([x], Implies(was(x), Or(And(pos[x] == pos0[x]),
+                                                                                 And(ai_n <= pos[x], pos[x] < ai_n + res.n, asel(res.arr, pos[x] - ai_n) == x))))),
+            ('group_items_know_their_future_position', ForAll([j], Implies(And(0 <= j, j < res.n),
+                                                       And(ai_n <= pos[asel(res.arr, j)], pos[asel(res.arr, j)] < ai_n + res.n,
+                                                           asel(res.arr, pos[asel(res.arr, j)] - ai_n) == asel(res.arr, j))))),
+            ('the_list_itself_is_untouched', And(ai_n == seq_of(lc.entry_local('all_inputs'), lc.entry.st)[1], ai_arr == seq_of(lc.entry_local('all_inputs'), lc.entry.st)[0]))]
 
 
 def inv_group(lc):
     me = as_kind(lc.pre.args['self'], Ref())
     res = lc.local('_comp_result')
     ai_arr, ai_n = seq_of(lc.local('all_inputs'), lc.st.st)
-    return G(lc.pre, lc.st, me) + [('lengths', And(res.n == lc.i, ai_n >= 0)), ('group_members_so_far_are_resolved', all_resolved(lc.st, me, res.arr, res.n)),
-                                   ('collected_inputs_are_resolved', all_resolved(lc.st, me, ai_arr, ai_n))]
+    blk = lc.st.st.env['blk'].z
+    return (G(lc.pre, lc.st, me) + frame(lc.entry, lc.st, me, blk, inputs_of_blk_too=True) +
+            _group_positions(lc, ai_arr, ai_n, res) +
+            [('lengths', And(res.n == lc.i, ai_n >= 0)), ('group_members_so_far_are_resolved', all_resolved(lc.st, me, res.arr, res.n)),
+             ('collected_inputs_are_resolved', all_resolved(lc.st, me, ai_arr, ai_n)),
+             ('the_block_being_processed', And(blk == lc.entry.st.env['blk'].z, member(lc.st, me, blk)))])
 
 
 def inv_connect(lc):
@@ -146,8 +277,13 @@ def inv_connect(lc):
     # instances (at the element handled next) of invariant clauses that are themselves obligations: available as quantifier-free facts
     inst = [('assume:instance_of_collected_inputs_are_resolved', Implies(And(0 <= lc.i, lc.i < lc.n), resolved(lc.st, me, cur))),
             ('assume:instance_of_new_input_connections_are_blocks_of_this_circuit', Implies(And(ic[blk][rc], Not(ic0[blk][rc])), member(lc.st, me, rc)))]
-    return inst + last + G(lc.pre, lc.st, me) + [('collected_inputs_are_resolved', all_resolved(lc.st, me, lc.arr, lc.n)),
-                                          ('the_block_being_processed', blk == lc.entry.st.env['blk'].z)]
+    i = Int('i!i4')
+    linked = lambda x_: Implies(Not(calls.inst_of(Val.ref(x_), CONST())), ic[blk][Val.ref(x_)])
+    return (inst + last + G(lc.pre, lc.st, me) + frame(lc.entry, lc.st, me, blk, inputs_of_blk_too=True)[:2] +
+            [('collected_inputs_are_resolved', all_resolved(lc.st, me, lc.arr, lc.n)),
+             ('the_block_being_processed', blk == lc.entry.st.env['blk'].z),
+             ('inputs_and_registrations_untouched', And(lc.st.whole('inputs') == lc.entry.whole('inputs'), lc.st.whole('_blocks') == lc.entry.whole('_blocks'))),
+             ('collected_inputs_handled_so_far_are_connected', ForAll([i], Implies(And(0 <= i, i < lc.i), linked(asel(lc.arr, i)))))])
 
 
 def verify_finalize(run):
@@ -165,4 +301,6 @@ def _verify_finalize_body(run):
     run.verify('Circuit._finalize', cls='Circuit',
                invariants={'for blk in list(self.getblocks(btype))': inv_blocks, 'for (iname, inp) in blk.inputs.items()': inv_items,
                            'comp:for i in inp': inv_group, 'for inp in all_inputs': inv_connect},
-               calls={'validate_output': validate_output_call, 'list': list_snapshot, 'self.getblocks': blocks_of_type})
+               ghost={'pos': K(Val, IntVal(-1)), 'blocks_at_second_pass': None},
+               calls={'validate_output': validate_output_call, 'list': list_snapshot, 'self.getblocks': blocks_of_type,
+                      'all_inputs.append': ai_append, '_comp_result.append': group_append})
